@@ -72,10 +72,24 @@ func (w *World) verifyFunc(con *Contract) (res *FuncResult) {
 		in.vals[p] = v
 		e.modelParam(p.Name(), p.Type(), v, st)
 	}
-	for _, p := range fn.FreeVars {
+	for i, p := range fn.FreeVars {
 		v := e.freshVal(in.name(p), p.Type(), st)
 		v.Ty = p.Type()
 		in.vals[p] = v
+		// a captured variable that is assigned exactly once (before the closure exists) keeps its value across the
+		// unknown calls of the abstract mode: its cell is pinned to the entry content
+		if e.abstract && writeOnceCapture(fn, i) {
+			if pt, ok := p.Type().Underlying().(*types.Pointer); ok {
+				switch pt.Elem().Underlying().(type) {
+				case *types.Struct, *types.Array, *types.Slice:
+				default:
+					comp := cellComp(pt.Elem())
+					e.regComp(comp, "(Array Int "+sortOfType(pt.Elem())+")")
+					e.pinned = append(e.pinned, pinnedCell{comp: comp, ref: v.T, val: sSel(st.get(comp), v.T)})
+					e.note("captured variable " + p.Name() + " of " + fn.Name() + " is assigned once before the closure is created (checked on the enclosing function and its closures): unknown calls leave it alone")
+				}
+			}
+		}
 	}
 	if fn.Signature.Recv() != nil && len(fn.Params) > 0 {
 		if v := in.vals[fn.Params[0]]; v.K == KRef {
@@ -405,4 +419,62 @@ func unmatchedClause(w *World, fn *ssa.Function, con *Contract) string {
 		}
 	}
 	return ""
+}
+
+// writeOnceCapture: free variable i of closure fn is bound to a local of the enclosing function that is stored at
+// most once there and never stored to by any closure capturing it.
+func writeOnceCapture(fn *ssa.Function, i int) bool {
+	parent := fn.Parent()
+	if parent == nil {
+		return false
+	}
+	var cell ssa.Value
+	for _, b := range parent.Blocks {
+		for _, ins := range b.Instrs {
+			if mc, ok := ins.(*ssa.MakeClosure); ok && mc.Fn == ssa.Value(fn) && i < len(mc.Bindings) {
+				cell = mc.Bindings[i]
+			}
+		}
+	}
+	al, ok := cell.(*ssa.Alloc)
+	if !ok || al.Referrers() == nil {
+		return false
+	}
+	stores := 0
+	for _, r := range *al.Referrers() {
+		switch x := r.(type) {
+		case *ssa.Store:
+			if x.Addr == ssa.Value(al) {
+				stores++
+			} else {
+				return false // the address itself is stored somewhere
+			}
+		case *ssa.MakeClosure:
+			cf, ok := x.Fn.(*ssa.Function)
+			if !ok {
+				return false
+			}
+			for k, bnd := range x.Bindings {
+				if bnd != ssa.Value(al) || k >= len(cf.FreeVars) || cf.FreeVars[k].Referrers() == nil {
+					continue
+				}
+				for _, rr := range *cf.FreeVars[k].Referrers() {
+					switch y := rr.(type) {
+					case *ssa.Store:
+						return false
+					case *ssa.UnOp, *ssa.DebugRef:
+					case *ssa.MakeClosure:
+						_ = y
+						return false // handed on to a nested closure: not followed
+					default:
+						return false
+					}
+				}
+			}
+		case *ssa.UnOp, *ssa.DebugRef:
+		default:
+			return false
+		}
+	}
+	return stores <= 1
 }
